@@ -117,13 +117,14 @@ SPEC_MUTANTS = [
 
 def run_part(v):
     plan = [(0, "radiance", 7), (0, "power", 4), (1, "power", 4), (2, "radiance", 4)] if v.tier == "quick" else \
-        [(0, "radiance", 8), (0, "power", 7), (1, "power", 7), (1, "radiance", 5), (2, "radiance", 7), (2, "power", 5)]
+        [(0, "radiance", 8), (0, "power", 7), (1, "power", 8), (1, "radiance", 5), (2, "radiance", 8), (2, "power", 5)]
     for dim, kind, depth in plan:
         res = core.run_tlc("RTPipeline", CFG.format(dim=dim, kind=kind, depth=depth), workers=1, seed=v.seed, timeout=3000, tag=f"C10-pipe{dim}")
         core.tlc_must_pass(res, f"RTPipeline {dim}D")
         v.add_tlc(res, f"RTPipeline/{dim}d-{kind}-depth{depth}")
         edges = [r for r in res.records if "h" in r]
-        if not any(sum(1 for e in r["h"] if e["op"] == "finalise") >= (2 if depth >= 6 else 1) for r in edges):
+        per_obs = 3 if dim == 0 else 4          # initialise, one render per pixel (two pixels for 1-D / 2-D), finalise
+        if not any(sum(1 for e in r["h"] if e["op"] == "finalise") >= (2 if depth >= 2 * per_obs else 1) for r in edges):
             raise core.MachineryError("vacuity: no behaviour with a completed (second) observation")
         if len(edges) > 40000:
             import random
